@@ -1144,6 +1144,18 @@ func (tr *trans) varAt(h *ssa.BasicBlock, name string, predIdx int, st State) (S
 			return env.goSV(tr.val(phi.Edges[predIdx]), phi.Type()), true
 		}
 	}
+	// a variable that lives in memory (address taken / captured): its current content, not the value of
+	// some earlier assignment
+	for d := h; d != nil; d = d.Idom() {
+		for i := len(d.Instrs) - 1; i >= 0; i-- {
+			if al, ok := d.Instrs[i].(*ssa.Alloc); ok && al.Comment == name {
+				if _, done := tr.vals[al]; done {
+					l := tr.locOf(al)
+					return env.goSV(tr.load(st, l), l.ty), true
+				}
+			}
+		}
+	}
 	for d := h.Idom(); d != nil; d = d.Idom() {
 		for i := len(d.Instrs) - 1; i >= 0; i-- {
 			switch x := d.Instrs[i].(type) {
